@@ -6,12 +6,13 @@
 set -u
 cd "$(dirname "$0")/.."
 export GOFLAGS=-mod=mod GOPROXY=off GOSUMDB=off GOTOOLCHAIN=local; unset GOWORK
-seeds=("$@"); [ ${#seeds[@]} -eq 0 ] && seeds=($(ls seeded))
+export SDIR="${SDIR:-/verif/seeded}"
+seeds=("$@"); [ ${#seeds[@]} -eq 0 ] && seeds=($(ls "$SDIR" | grep -v MATRIX))
 one() {
   sid="$1"
   WT=$(mktemp -d /tmp/pl-mx-XXXXXX)
   git -C /repo worktree add -f --detach "$WT" HEAD >/dev/null 2>&1
-  if ! git -C "$WT" apply "/verif/seeded/$sid/patch.diff" 2>/dev/null; then echo "$sid PATCH-DOES-NOT-APPLY"; else
+  if ! git -C "$WT" apply "$SDIR/$sid/patch.diff" 2>/dev/null; then echo "$sid PATCH-DOES-NOT-APPLY"; else
     out=$(/verif/bin/pikelint -repo "$WT" -property all -no-evidence -verif /verif 2>&1)
     fired=$(echo "$out" | grep -E "^  (VIOLATED|UNDECIDED)" | awk '{print $2}' | sort -u | tr '\n' ' ')
     own=${sid%%-*}
